@@ -205,6 +205,20 @@ def cases(ctx):
                 yield dict(op=("position %s %s 1 2 52/1 4/1" if ref else "position %s %s 1 2") % (m0, m1), real=("h:props.C14.klass_pair", [m0, m1, ref]),
                            pred=["pred_class", inside, 112, True, "position"], tag="pair-in" if inside else "pair-out", trivial=not inside,
                            info=dict(df=17, tc=tc0, st2=None, n=112, long_only=True, fn="position"))
+    # a pair in which one (or both) of the frames is not DF17/18 has no type code: must be rejected with RuntimeError
+    for df0 in range(32):
+        for df1 in (17, 18, 20, 0, 11, 31):
+            for ref in (False, True):
+                if df0 in (17, 18) and df1 in (17, 18):
+                    continue
+                mk = lambda df, i: (spec.adsb_frame(rng, 11, [(21, 1, i)], df=df) if df in (17, 18)  # noqa
+                                    else spec.df_frame(rng, df, 112, [(37, 5, 11)]))
+                m0, m1 = hex_of(mk(df0, 0)), hex_of(mk(df1, 1))
+                if rng.random() < 0.5:
+                    m0, m1 = m1, m0
+                yield dict(op=("position %s %s 1 2 52/1 4/1" if ref else "position %s %s 1 2") % (m0, m1), real=("h:props.C14.klass_pair", [m0, m1, ref]),
+                           pred=["pred_class", False, 112, True, "position"], tag="pair-nondf17", trivial=True,
+                           info=dict(df=df0, tc=11, st2=None, n=112, long_only=True, fn="position"))
     # boundary payloads: every movement code / every character code through the total-function checks
     for mov in range(128):
         m = hex_of(spec.adsb_frame(rng, rng.randrange(5, 9), [(5, 7, mov)], df=17))
